@@ -10,8 +10,11 @@ import (
 	"sort"
 	"strings"
 	"sync"
+	"sync/atomic"
 	"time"
 
+	"github.com/scrapli/scrapligo/driver/generic"
+	"github.com/scrapli/scrapligo/driver/network"
 	"github.com/scrapli/scrapligo/driver/opoptions"
 	"github.com/scrapli/scrapligo/driver/options"
 	"github.com/scrapli/scrapligo/util"
@@ -32,7 +35,10 @@ type Desc struct {
 	A         string `json:"a,omitempty"` // schedule constraint: first arrival at B waits until A was passed
 	B         string `json:"b,omitempty"`
 	RandDelay bool   `json:"rand_delay,omitempty"`
-	Seed      int64  `json:"seed"`
+	// OnClose: the driver carries on-close hooks (generic and network level) that write "exit" and a
+	// return to the channel, as the shipped platform definitions do.
+	OnClose bool  `json:"on_close,omitempty"`
+	Seed    int64 `json:"seed"`
 	// Session (kind=session): a C01 session or a scenario replayed under the race detector.
 	C01Session *c01.Session `json:"c01,omitempty"`
 	Scenario   string       `json:"scenario,omitempty"`
@@ -172,7 +178,24 @@ func runClose(d Desc) mon.Result {
 	if d.State == "idle-cycling" {
 		cfg.Poll = true
 	}
-	s, err := sc.New(cfg, 3*time.Second, options.WithReadDelay(time.Duration(d.ReadDelay)*time.Microsecond))
+	extra := []util.Option{options.WithReadDelay(time.Duration(d.ReadDelay) * time.Microsecond)}
+	var onCloseRan atomic.Int32
+	if d.OnClose && d.Driver != "netconf" {
+		extra = append(extra, options.WithOnClose(func(g *generic.Driver) error {
+			onCloseRan.Add(1)
+			if err := g.Channel.Write([]byte("exit"), false); err != nil {
+				return err
+			}
+			return g.Channel.WriteReturn()
+		}))
+		if d.Driver == "network" {
+			extra = append(extra, options.WithNetworkOnClose(func(n *network.Driver) error {
+				onCloseRan.Add(1)
+				return n.Channel.WriteReturn()
+			}))
+		}
+	}
+	s, err := sc.New(cfg, 3*time.Second, extra...)
 	if err != nil {
 		return mon.Result{Verdict: mon.Inconclusive, Detail: "constructor: " + err.Error()}
 	}
@@ -347,6 +370,9 @@ func runClose(d Desc) mon.Result {
 			return viol("hang:op-after-close:"+d.Driver, "the operation that was in flight has not returned 6 s after Close (its timeout is 2 s)\n%s", libStacks())
 		}
 	}
+	if d.OnClose && d.Driver != "netconf" && onCloseRan.Load() == 0 {
+		return viol("c07/on-close-not-run:"+d.Driver, "Close returned but the on-close hooks never ran")
+	}
 	if s.Conn.CloseCalls() < 1 {
 		return viol("c07/transport-not-closed:"+d.Driver, "Close returned but the transport's Close was never called")
 	}
@@ -378,6 +404,9 @@ func runClose(d Desc) mon.Result {
 	sig := ct.signature()
 	cst := ct.stats()
 	obs := map[string]int64{"closes": int64(nClose), "yield_hits": int64(cst.hits)}
+	if d.OnClose {
+		obs["closes_with_on_close_hooks"]++
+	}
 	tags := []string{"driver=" + d.Driver, "state=" + d.State, "close=" + d.CloseB, fmt.Sprintf("readdelay=%d", d.ReadDelay), "order:" + sig}
 	if d.A != "" {
 		if cst.infeasible {
@@ -464,6 +493,9 @@ func gen(tier string, seed int64) []mon.Case {
 			for _, cb := range closeBs {
 				for _, rd := range delays {
 					add(Desc{Kind: "close", Driver: dr, State: st, CloseB: cb, ReadDelay: rd})
+					if dr != "netconf" && rd == 250 {
+						add(Desc{Kind: "close", Driver: dr, State: st, CloseB: cb, ReadDelay: rd, OnClose: true})
+					}
 				}
 			}
 		}
@@ -517,7 +549,7 @@ func gen(tier string, seed int64) []mon.Case {
 	}
 	r := rand.New(rand.NewSource(seed*31 + 7))
 	for i := 0; i < nr; i++ {
-		add(Desc{Kind: "close", Driver: drivers[r.Intn(3)], State: states[r.Intn(len(states))], CloseB: closeBs[r.Intn(3)], ReadDelay: delays[r.Intn(3)], RandDelay: true})
+		add(Desc{Kind: "close", Driver: drivers[r.Intn(3)], State: states[r.Intn(len(states))], CloseB: closeBs[r.Intn(3)], ReadDelay: delays[r.Intn(3)], RandDelay: true, OnClose: r.Intn(3) == 0})
 	}
 	// "during the session": sessions of other properties replayed under the race detector
 	ns := 20
@@ -639,5 +671,4 @@ func init() {
 		Procs: func(tier string, shard int) int { return []int{4, 2, 8, 1}[shard%4] },
 		Post:  post,
 	})
-	_ = util.ErrIgnoredOption
 }
